@@ -399,6 +399,17 @@ func runC20(seed int64, n int, dir string, tier string) *Report {
 				setup(kd)
 				killAt(kp, kd, docfile, noclobber)
 				check(fmt.Sprintf("process killed at the entry of %s", kp.line), kd, map[string]any{"killed_before": kp.line})
+				// the natural next step after a crash: the same store again; if it reports success, the
+				// document is what a retrieve returns (whatever the interrupted attempt left behind)
+				rep.OracleEvals++
+				if st := runChild(false, "store", kd, docfile, noclobber); st.Outcome == "ok" {
+					if got, e := classify(kd, id); got != "new" {
+						rep.Fail(Failure{What: "a store repeated after a crash reported success, but Retrieve does not return the document", Detail: fmt.Sprintf("first attempt killed at the entry of %s; retrieve gives %s %s", kp.line, got, e), Input: map[string]any{"overwrite": overwrite, "noclobber": noclobber, "id": id, "killed_before": kp.line}})
+					}
+					rep.Count("retry_after_kill:ok")
+				} else {
+					rep.Count("retry_after_kill:" + st.Outcome)
+				}
 				_ = os.RemoveAll(kd)
 				rep.Count("real_kills")
 			}
